@@ -837,10 +837,33 @@ at_value (std::shared_ptr <dwfl_context> dwctx,
       }
 
     case DW_FORM_sdata:
-      return atval_signed (attr);
-
     case DW_FORM_udata:
-      return atval_unsigned (attr);
+      // The form gives the signedness of a plain integer.  But an
+      // attribute whose value is one of the DWARF enumerations is
+      // shown in the domain of that enumeration whatever constant
+      // form it is stored in.
+      switch (dwarf_whatattr (&attr))
+	{
+	case DW_AT_language:
+	case DW_AT_inline:
+	case DW_AT_encoding:
+	case DW_AT_accessibility:
+	case DW_AT_visibility:
+	case DW_AT_virtuality:
+	case DW_AT_identifier_case:
+	case DW_AT_calling_convention:
+	case DW_AT_ordering:
+	case DW_AT_decimal_sign:
+	case DW_AT_address_class:
+	case DW_AT_endianity:
+	case DW_AT_defaulted:
+	  return handle_at_dependent_value (attr, vd, dwctx);
+	}
+
+      if (form == DW_FORM_sdata)
+	return atval_signed (attr);
+      else
+	return atval_unsigned (attr);
 
     case DW_FORM_addr:
     case DW_FORM_addrx1:
